@@ -2,7 +2,9 @@
 
 Case kinds (field "k"):
   rt    write_dataframe_to_tsfile(X, tmp, ...) then load_from_tsfile_to_dataframe(written file)
-        {"X": [[float]], "ints": bool, "name", "ts", "uni", "eq", "sl", "comment", "cl", "vals", "vals_nd", "na"}
+        {"X": [[float]], "ints": bool, "name", "ts", "uni", "eq", "sl", "comment", "cl", "vals", "vals_nd", "na",
+         "idx": row labels of the frame handed to the writer (None = default RangeIndex; permuted / offset / duplicated / strings),
+         "vals_as": container of the class values (list | nd | tuple | series | series_idx with its own index "vidx")}
   ts / arff / tsv   one parser on a text ("text": str) or on a bundled file ("path": relative to datasets/data)
   fmt   one dataset in .ts / .arff / .tsv through the three real parsers: bundled ("ds") or rendered by the
         harness from a generated panel ("gen": {"X": [[[tok]]] dims x instances x tokens, "y": [str], "style"})
@@ -56,7 +58,9 @@ ASSUMPTIONS = [
     "without newline and '/'",
     "decimal exponents within double range (no overflow to inf)",
 ]
-RULE = ("rt: fixed-order grid of writer options (labels present/absent, comment none/short/wrapping, equalLength/seriesLength, names) x "
+RULE = ("rt: row index of the written panel (default, permuted, reversed, offset, duplicated, all-zero, strings, train+test concatenated, "
+        "negative, gaps) x container of the class values (list, ndarray, tuple, Series, Series with its own index) with pairwise distinct labels, "
+        "fixed order, all combinations in both tiers; labels are paired with instances by position. fixed-order grid of writer options (labels present/absent, comment none/short/wrapping, equalLength/seriesLength, names) x "
         "small panels (quick: seed-rotated slice, thorough: all) + random panels over magnitudes 1e-8..1e12, mixed magnitudes, ints, "
         "1..12 instances, length 1..60 + off-domain options (univariate=False, timestamp=True, mismatching label counts). "
         "files: every bundled dataset in every format (quick: small ones + seed-rotated large), harness-rendered three-format data sets, "
@@ -267,7 +271,26 @@ def _frame(c):
     df = pd.DataFrame({"dim_0": col})
     if c.get("extra_dim"):
         df["dim_1"] = [pd.Series([0.5, 0.25]) for _ in X]
+    if c.get("idx") is not None:
+        df.index = pd.Index(c["idx"])
     return df
+
+
+def _class_values(c):
+    """the class values in the container the case asks for (pairing with instances is by POSITION in all of them)"""
+    vals = c.get("vals")
+    if vals is None:
+        return None
+    how = c.get("vals_as") or ("nd" if c.get("vals_nd") else "list")
+    if how == "nd":
+        return np.array(vals)
+    if how == "tuple":
+        return tuple(vals)
+    if how == "series":
+        return pd.Series(vals)
+    if how == "series_idx":
+        return pd.Series(vals, index=pd.Index(c["vidx"]))
+    return list(vals)
 
 
 def tokens_of(c):
@@ -306,9 +329,7 @@ def _rt_obs(c):
         return _RT_MEMO[key]
     from sktime.utils.data_io import write_dataframe_to_tsfile
     df = _frame(c)
-    vals = c.get("vals")
-    if vals is not None and c.get("vals_nd"):
-        vals = np.array(vals)
+    vals = _class_values(c)
     kw = dict(problem_name=c["name"], timestamp=c["ts"], univariate=c["uni"], class_label=c.get("cl"),
               class_value_list=vals, equal_length=c["eq"], series_length=c["sl"], comment=c.get("comment"))
     if "na" in c:
@@ -904,6 +925,11 @@ def features(c, out):
         f.append("comment=" + ("none" if not c.get("comment") else "wrap" if len(comment_lines(c)) > 1 else "one-line"))
         f.append("header=" + ("eq" if c["eq"] else "") + ("sl" if c["sl"] > 0 else "") + ("" if c["eq"] or c["sl"] > 0 else "plain"))
         f.append("domain=" + ("in" if in_domain(c) else "off"))
+        idx = c.get("idx")
+        f.append("row-index=" + ("default" if idx is None else "strings" if any(isinstance(v, str) for v in idx) else
+                                 "duplicated" if len(set(idx)) < len(idx) else "permuted-or-offset"))
+        if c.get("vals"):
+            f.append("class-values-as=" + (c.get("vals_as") or ("nd" if c.get("vals_nd") else "list")))
         n = len(c["X"])
         f.append("n=" + ("1" if n == 1 else "2-4" if n <= 4 else "5+"))
         L = max([len(s) for s in c["X"]] or [0])
@@ -984,6 +1010,43 @@ def _rand_labels(rng, n):
         vals = [rng.choice(pool) for _ in range(n)]
     cl = list(dict.fromkeys(vals))
     return cl, vals
+
+
+IDX_KINDS = ["perm", "reversed", "offset", "dups", "zeros", "strings", "concat", "negative", "gaps"]
+
+
+def _row_index(rng, n, kind):
+    if kind == "perm":
+        v = list(range(n)); rng.shuffle(v); return v
+    if kind == "reversed":
+        return list(range(n - 1, -1, -1))
+    if kind == "offset":
+        off = rng.choice([1, 7, 100, 10 ** 6]); return [off + i for i in range(n)]
+    if kind == "dups":
+        return [rng.randrange(0, max(1, n // 2)) for _ in range(n)]
+    if kind == "zeros":
+        return [0] * n
+    if kind == "strings":
+        v = ["r%d" % i for i in range(n)]; rng.shuffle(v); return v
+    if kind == "concat":        # the index of the loaders' split=None frame: 0..a-1 followed by 0..b-1
+        a = rng.randrange(0, n + 1); return list(range(a)) + list(range(n - a))
+    if kind == "negative":
+        return [-(i + 1) for i in range(n)]
+    return [2 * i + 3 for i in range(n)]
+
+
+def _with_index(rng, c, p=0.5):
+    """the row index of the panel and the container of the class values are dimensions of the round trip"""
+    n = len(c["X"])
+    if rng.random() < p:
+        c["idx"] = _row_index(rng, n, rng.choice(IDX_KINDS))
+    if c.get("vals") and len(c["vals"]) == n:
+        c.pop("vals_nd", None)
+        c["vals_as"] = rng.choice(["list", "list", "nd", "tuple", "series", "series_idx"]) if all(isinstance(v, str) for v in c["vals"]) \
+            else rng.choice(["list", "tuple", "series", "series_idx"])
+        if c["vals_as"] == "series_idx":
+            c["vidx"] = _row_index(rng, n, rng.choice(IDX_KINDS))
+    return c
 
 
 def _rt_case(rng, X, labels=True, **kw):
@@ -1152,8 +1215,38 @@ def gen_cases(tier, rng):
         X = _rand_panel(rng)
         lab = rng.random() < 0.8
         eq, sl = rng.choice(headers[:3] + [(True, len(X[0])), (False, -1), (False, -1)])
-        cases.append(_rt_case(rng, X, labels=lab, comment=rng.choice(COMMENTS + [None, None]), eq=eq, sl=sl,
-                              name=rng.choice(NAMES[:8]), ints=(rng.random() < 0.1 and all(float(v).is_integer() and abs(v) < 2 ** 53 for s in X for v in s))))
+        cases.append(_with_index(rng, _rt_case(rng, X, labels=lab, comment=rng.choice(COMMENTS + [None, None]), eq=eq, sl=sl,
+                              name=rng.choice(NAMES[:8]), ints=(rng.random() < 0.1 and all(float(v).is_integer() and abs(v) < 2 ** 53 for s in X for v in s)))))
+    # ---- 2b. the ROW INDEX of the panel handed to the writer x the container of the class values (fixed order, all
+    #          combinations in both tiers): instance k's series must come back with instance k's label BY POSITION,
+    #          whatever the row labels are.  Labels are pairwise distinct so that any re-pairing is visible.
+    for n in (2, 3, 5):
+        X = [[float(10 * i + j) + 0.5 for j in range(3)] for i in range(n)]
+        labs = ["c%d" % i for i in range(n)]
+        for ik in [None] + IDX_KINDS:
+            idx = None if ik is None else _row_index(rng, n, ik)
+            for how in ["list", "nd", "tuple", "series"] + ["series_idx:" + k_ for k_ in IDX_KINDS]:
+                c = _rt_case(rng, X, labels=False, cl=list(labs), vals=list(labs), idx=idx)
+                if how.startswith("series_idx:"):
+                    c["vals_as"], c["vidx"] = "series_idx", _row_index(rng, n, how.split(":")[1])
+                else:
+                    c["vals_as"] = how
+                cases.append(c)
+            cases.append(_rt_case(rng, X, labels=False, idx=idx))      # label-free, same index
+    # the frame the bundled loaders return for split=None carries the index 0..n_train-1 followed by 0..n_test-1
+    try:
+        import sktime.datasets.base as _b
+        for ds in (["UnitTest", "GunPoint"] if thorough else ["UnitTest"]):
+            Xl, yl = _b.load_UCR_UEA_dataset(ds, split=None, return_X_y=True)
+            for how in ("list", "nd", "series_idx"):
+                c = _rt_case(rng, [[float(v) for v in Xl.iloc[i, 0]] for i in range(len(Xl))], labels=False,
+                             cl=sorted(set(str(v) for v in yl)), vals=[str(v) for v in yl], idx=[int(v) for v in Xl.index], name=ds)
+                c["vals_as"] = how
+                if how == "series_idx":
+                    c["vidx"] = [int(v) for v in yl.index]
+                cases.append(c)
+    except Exception:
+        pass
     # ---- 3. off-domain options (correspondence only)
     for _ in range(400 if thorough else 40):
         X = _rand_panel(rng, equal=rng.random() < 0.5)
@@ -1252,7 +1345,15 @@ def shrink(c):
             d = dict(c, X=X[:i] + X[i + 1:])
             if c.get("vals") and len(c["vals"]) == n:
                 d["vals"] = c["vals"][:i] + c["vals"][i + 1:]
+                if c.get("vidx") is not None and len(c["vidx"]) == n:
+                    d["vidx"] = c["vidx"][:i] + c["vidx"][i + 1:]
+            if c.get("idx") is not None:
+                d["idx"] = c["idx"][:i] + c["idx"][i + 1:]
             yield d
+    if c.get("idx") is not None:
+        yield dict(c, idx=None)
+    if c.get("vals_as") not in (None, "list"):
+        yield dict(c, vals_as="list")
     L = len(X[0]) if X else 0
     if L > 1 and all(len(s) == L for s in X):
         yield dict(c, X=[s[:L // 2] for s in X])
